@@ -114,6 +114,7 @@ func init() {
 		thorough := os.Getenv("VERIF_TIER") == "thorough"
 		probeBC, _ := ugo.Compile([]byte("r := []\ntry { r = append(r, 1); throw \"x\" } catch e { r = append(r, 2) } finally { r = append(r, 3) }\nf := func(...v) { return len(v) }\nreturn [r, f(1, 2), f()]"), ugo.CompilerOptions{})
 		probeWant := "[[1, 2, 3], 2, 0]"
+		probeErrBC, _ := ugo.Compile([]byte("a := [1]\nb := 5\nreturn a[b]"), ugo.CompilerOptions{})
 		runs := 0
 		for _, c := range cases {
 			depths := []int{0}
@@ -193,6 +194,13 @@ func init() {
 							ret, err := vm.Run(nil)
 							if err != nil || ret.String() != probeWant {
 								bad = fmt.Sprintf("follow-up run on the same VM returned %v / %v, a new VM returns %s", ret, errShort(err), probeWant)
+								return
+							}
+							// an error raised outside any try statement must still end the run
+							vm.SetBytecode(probeErrBC)
+							ret, err = vm.Run(nil)
+							if re, ok := err.(*ugo.RuntimeError); !ok || re.Err == nil || re.Err.Name != "IndexOutOfBoundsError" {
+								bad = fmt.Sprintf("follow-up run of a failing script on the same VM returned %v / %v, a new VM returns IndexOutOfBoundsError", ret, errShort(err))
 							}
 						}()
 					}
